@@ -24,29 +24,42 @@ RULE = ("one run = one seeded history of stores (own stream published, stream do
         "`file` row and with all/some blobs finished, network-seeded bare blobs, clock advances, a blob file lost "
         "and the blob fetched again (own and foreign), restarts = new incarnation running BlobManager.setup over the "
         "same directory + sqlite, optionally with all / the own / some blob files away for one start and back for the "
-        "next) interleaved with 1..3 cleanup rounds; before each round both limits are drawn from {0, below, equal to, just "
+        "next; [own stream C19.gen.recover] daemon-like histories: streams carry their claim, every start after the "
+        "first also runs the real StreamManager.initialize_from_database() incl. start-up recovery, descriptor blob "
+        "files of own/all/some stored streams are lost between two starts; [C19.gen.unattached] a publish interrupted "
+        "before store_stream (own blobs in no stream); [C19.gen.shared] a second valid descriptor (other stream name) "
+        "naming the data blobs of an earlier download; [C19.gen.claimed] before a stream's data arrives another valid "
+        "descriptor naming the same hashes with under/overstated lengths is stored and never completes) interleaved "
+        "with 1..3 cleanup rounds; before each round both limits are drawn from {0, below, equal to, just "
         "above, far above} the usage of that moment; a round is one `clean()` (direct or through the real "
         "cleaning_loop on the virtual clock), optionally followed by a second `clean()` with nothing changed. "
         "Blob lengths 1 KiB..2 MiB around the whole-MiB boundaries; a fifth of the runs move real bytes end "
         "to end (create_stream / blob writers), the others register synthetic lengths through the same "
-        "storage calls. Non-trivial = at least one class pass started over its limit or deleted something; "
+        "storage calls over sparse files of exactly that length. Non-trivial = at least one class pass started over its limit or deleted something; "
         "distinct = distinct event-trace digest.")
 COMPONENTS = {
     'real': ['lbry.blob.disk_space_manager.DiskSpaceManager', 'lbry.extras.daemon.storage.SQLiteStorage',
              'lbry.wallet.database.AIOSQLite (sqlite3 file database)', 'lbry.blob.blob_manager.BlobManager',
              'lbry.blob.blob_file.BlobFile / lbry.blob.writer.HashBlobWriter', 'lbry.stream.descriptor.StreamDescriptor',
-             'lbry.conf.Config', 'blob directory (real files on tmpfs)'],
+             'lbry.conf.Config', 'blob directory (real files on tmpfs)',
+             'lbry.stream.stream_manager.StreamManager.initialize_from_database / recover_streams / _load_stream and '
+             'SQLiteStorage.recover_streams, save_claims (daemon-like histories)'],
     'stub': ['analytics (None)', 'thread/process pools (jobs run inline on the SimLoop at scheduler-drawn instants)',
              'network (blobs arrive through writers driven by the harness)',
-             'blob bytes in synthetic runs (placeholder files, database lengths as generated)'],
+             'blob bytes in synthetic runs (sparse files of the generated length; stat, the BlobFile length check '
+             'and the start-up scan see the real size)', 'wallet / claim transactions (a claim row naming the stream)'],
 }
 ASSUMPTIONS = [
     'committed sqlite transactions are durable and atomic; one executor job = one complete transaction',
-    'a blob shared by two streams is not generated (the usage query double counts it; outside the statement)',
+    'usage of a class = bytes really on disk (size of the blob file) summed once per distinct finished blob, own = what '
+    'the harness\' publish operations produced, network = foreign blobs in no stream, content = foreign blobs in >= 1 '
+    'stream; the product\'s reading of its tables is recorded next to it only to name the input class (site field '
+    '`input`: own_unattached / shared_blob / claimed_length) in which the two differ',
+    'a blob shared by an own and a foreign stream is not generated',
     'content usage: "deleted although within the limit" only when floor((content+own)/MiB) <= limit, "still over" only '
     'when floor(content/MiB)+floor(own/MiB) > limit (the pass\'s own reading); in between either behaviour is accepted',
     'descriptor (sd) blobs of stored streams are outside the usage accounting; a foreign finished sd blob deleted by '
-    'the network pass while the network class is over its limit is tolerated and counted (probe obs_network_deleted_stream_sd)',
+    'the network pass is C19.not_removable (VERIF_C19_STRICT_SD=0 tolerates and counts it)',
     'no store runs concurrently with a cleanup pass',
     '"published by the user" is the harness\' own record of the hashes its publish operations produced, never the '
     '`is_mine` column; the usage classes follow the column (the product\'s reading); restarts are clean shutdowns',
@@ -57,7 +70,10 @@ EXPECTED_PROBES = ['pass_content_over', 'pass_content_within', 'pass_content_equ
                    'deleted_multi', 'deleted_sd_blob', 'stopped_exactly_at_limit', 'second_pass', 'stores_between_rounds',
                    'real_bytes_run', 'own_stream', 'own_bare_blob', 'stream_without_file', 'partial_stream',
                    'via_cleaning_loop', 'own_present_while_deleting', 'sd_pending', 'refetch_own', 'refetch_foreign',
-                   'restart', 'restart_files_missing', 'restart_files_back', 'own_row_pending_after_start', 'own_reensured']
+                   'restart', 'restart_files_missing', 'restart_files_back', 'own_row_pending_after_start', 'own_reensured',
+                   'daemon_start', 'sd_blob_lost', 'recovery_ran', 'own_stream_recovered', 'publish_interrupted',
+                   'shared_stream', 'claimed_length_first', 'pass_with_own_unattached', 'pass_with_shared_blob',
+                   'pass_with_claimed_length']
 
 MIB = be.MIB
 _DROP = object()
